@@ -29,6 +29,7 @@ THEOREMS = [
     "ProbLogProofs.C14.C14_comp_apply",
     "ProbLogProofs.C14.C14_unifyValue_complete_partial",
     "ProbLogProofs.C14.C14_builtinEq_complete_partial",
+    "ProbLogProofs.C14.C14_unifyValue_fail_agrees_mgu_partial",
 ]
 REFUTATIONS = [
     "ProbLogProofs.C14.C14_eqBuiltin_sharing_refuted",
@@ -293,17 +294,26 @@ def as_caller(case):
     return {"mode": "clause", "t1": t1, "t2": t2}
 
 
-def signature(runner, case, verdict):
-    kind = verdict[0]
-    src, qt, system, outs = P.build(case)
-    sig = {"kind": kind, "cycle": cycle_kind(system), "quoted_alias": quoted_alias(case)}
+def attribute(runner, case, verdict):
+    """-> (case, verdict, signature). A wrong answer to a top-level query `?- p(T2)` is attributed to the top-level
+    (site 'top-level query only') when the same call made from a clause body is answered correctly; otherwise the
+    call from the clause body is the reported failure."""
     if case["mode"] == "fact":
         alt = as_caller(case)
         (_, v2, _), = P.run_cases(runner, [alt])
-        sig["site"] = "top-level query only (same call from a clause body is right)" if v2 is None else "clause head"
+        if v2 is not None:
+            case, verdict = alt, v2
+    src, qt, system, outs = P.build(case)
+    sig = {"kind": verdict[0], "cycle": cycle_kind(system), "quoted_alias": quoted_alias(case)}
+    if case["mode"] == "fact":
+        sig["site"] = "top-level query only (same call from a clause body is right)"
     else:
         sig["site"] = SITE[case["mode"]]
-    return sig
+    return case, verdict, sig
+
+
+def signature(runner, case, verdict):
+    return attribute(runner, case, verdict)[2]
 
 
 def smaller_terms(t):
@@ -582,21 +592,22 @@ def run(ctx):
 
     reported = {}
     for c, v, r in failures:
-        sig = signature(runner, c, v)
+        c, v, sig = attribute(runner, c, v)
         key = json.dumps(sig, sort_keys=True)
         reported.setdefault(key, []).append((c, v, sig))
     for key, lst in sorted(reported.items()):
         c, v, sig = min(lst, key=lambda x: U.size(x[0]["t1"]) + U.size(x[0]["t2"]))
         small = shrink(runner, c, sig) if not ctx.replay_in else c
         (_, v2, _), = P.run_cases(runner, [small])
-        if v2 is None:
+        if v2 is None or signature(runner, small, v2) != sig:
             small, v2 = c, v
+        else:
+            small, v2, _ = attribute(runner, small, v2)
         what = "%s [%s; cycle=%s]: %s — %s" % (v2[0], sig["site"], sig["cycle"], P.case_text(small), v2[1])
         status = ctx.fail(what, {"case": jsonable(small), "program": P.case_text(small)}, sig)
-        for _ in lst[1:]:
-            # further occurrences of the same signature count as hits of the same (known or new) failure
-            if status == "known":
-                ctx.fail(what, {"case": jsonable(small)}, sig)
+        if status == "known":
+            for _ in lst[1:]:
+                ctx.fail(what, {"case": jsonable(small)}, sig)  # counts the further occurrences of the known finding
         ctx.count("failure signature %s" % key, len(lst))
 
     # ------------------------------------------------------------------ Python reference = proved Lean mguFuel
